@@ -102,6 +102,18 @@ impl RequestHandler<Rename> for RenameHandler {
         ctx: &mut LspContext,
         params: RenameParams,
     ) -> MosResult<Option<WorkspaceEdit>> {
+        let result = rename(ctx, params);
+
+        // Computing the edits renames symbols in the symbol table. The documents themselves only change once the client
+        // applies the edits (and tells us), so go back to what the documents say right now.
+        ctx.perform_codegen();
+
+        result
+    }
+}
+
+fn rename(ctx: &LspContext, params: RenameParams) -> MosResult<Option<WorkspaceEdit>> {
+    {
         let codegen = match ctx.codegen() {
             Some(cg) => cg,
             None => return Ok(None),
@@ -155,7 +167,9 @@ impl RequestHandler<Rename> for RenameHandler {
                     // But not the paths that reach it by another name (`.import name as alias`): the alias stays what it is
                     for (dl, (steps, _)) in steps.iter() {
                         if let Some(QueryTraversalStep::Symbol(nx)) = steps.last() {
-                            if codegen.symbols().children(dl.parent_scope).get(&old_name) != Some(nx) {
+                            if codegen.symbols().children(dl.parent_scope).get(&old_name)
+                                != Some(nx)
+                            {
                                 continue;
                             }
                             codegen.symbols_mut().rename(
